@@ -62,12 +62,14 @@ Record rcols := mk_rcols {
 Record cols := mk_cols {
   c_skip : bool;                     (* the walker never yields it (ignore files; gitignore back-end) *)
   c_se_name : bool;                  (* scanner.exclude matches the name *)
-  c_se_path : bool;                  (* scanner.exclude matches the raw path *)
+  c_se_path : bool;                  (* scanner.exclude matches the normalised path *)
   c_se_dir : bool;                   (* name is one of scanner_exclude_dir_names *)
   c_ce_name : bool;                  (* structure.count_exclude matches the name *)
-  c_ce_path : bool;                  (* ... the raw path *)
-  c_lim_scope : list bool;           (* dirs: per structure rule, scope matcher on the raw path *)
-  c_plc_scope : list bool;           (* dirs: per placement rule, AllowlistRule::matches_directory *)
+  c_ce_path : bool;                  (* ... the normalised path *)
+  c_scope : list bool;               (* dirs: per structure rule, does the scope match the NORMALISED
+                                        directory path.  Since fixes/D07 every site (resolve_limits, explain,
+                                        sibling dir_matcher, AllowlistRule::matches_directory) asks this
+                                        same question; the check verifies that they agree *)
   c_g : gcols;
   c_r : list rcols;                  (* per placement rule *)
   c_sib : list (list bool)           (* files: per structure rule, per sibling entry: file matcher on the name *)
@@ -99,8 +101,8 @@ Record entry := mk_entry {
   e_path : path;                     (* leaf first, never [] *)
   e_depth : Z;                       (* walkdir / ignore DirEntry::depth *)
   e_cols : cols;
-  e_pplc : list bool;                (* placement-scope columns of the PARENT directory *)
-  e_plim : list bool                 (* limit-scope columns of the PARENT directory (sibling rules) *)
+  e_pplc : list bool;                (* scope column of the PARENT directory as the placement site sees it *)
+  e_plim : list bool                 (* ... as the explain / sibling site sees it (the same column) *)
 }.
 
 Definition e_parent (e : entry) : path := tl (e_path e).
@@ -115,10 +117,10 @@ Fixpoint entries_aux (pp : path) (pplc plim : list bool) (d : Z) (t : tree) : li
   | Dir n c ch =>
       if pruned_dir c then []
       else mk_entry KDir (n :: pp) d c pplc plim
-           :: flat_map (entries_aux (n :: pp) (c_plc_scope c) (c_lim_scope c) (d + 1)) ch
+           :: flat_map (entries_aux (n :: pp) (c_scope c) (c_scope c) (d + 1)) ch
   end.
 
-(* rp = placement-scope columns of the root's parent (the empty path) *)
+(* rp, rl = scope column of the root's parent (the empty path) at the two sites *)
 Definition entries (rp rl : list bool) (t : tree) : list entry := entries_aux [] rp rl 0 t.
 
 (* sibling names are pairwise distinct everywhere (a file system guarantees it) *)
